@@ -152,6 +152,24 @@ func init() {
 			jobs = append(jobs, concJob("L3:evicting/"+ex, l3, []string{"set 1", "set 2"}, [][]string{{"set 3", "get 1"}, {"get 2", "set 1"}}, or, "native", pb, false, 16, budget, "histories-checked"))
 			jobs = append(jobs, concJob("L3:evicting-cap1/"+ex, CacheCfg{MaxSize: 1, Executor: ex}, []string{"set 1"}, [][]string{{"set 2", "get 2"}, {"get 1", "cia 1"}}, or, "native", pb, false, 16, budget, "histories-checked"))
 		}
+		// L6: InvalidateAll (one removal per key, each inside the call) against writers and readers of two keys
+		for _, ex := range []string{"caller", "default"} {
+			ws := []string{"set 1", "cia 3", "inv 1"}
+			if thorough {
+				ws = []string{"set 1", "sia 1", "cw 1", "cia 3", "inv 1", "cipw 1"}
+			}
+			for _, w := range ws {
+				cfg := CacheCfg{Executor: ex}
+				lpb := pb
+				if ex == "default" {
+					cfg.MaxSize = 5 // with maintenance: the fast path under the eviction lock
+					lpb = pb - 1    // spawned maintenance goroutines multiply the schedules
+				} else if w != "cia 3" {
+					jobs = append(jobs, concJob("L6:InvalidateAll‖"+w+"/caller-bounded", CacheCfg{MaxSize: 5}, []string{"set 1", "set 2"}, [][]string{{"invall", "get 1"}, {w, "get " + strings.Fields(w)[1]}}, or, "native", pb, false, 8, budget, "histories-checked"))
+				}
+				jobs = append(jobs, concJob("L6:InvalidateAll‖"+w+"/"+ex, cfg, []string{"set 1", "set 2"}, [][]string{{"invall", "get 1"}, {w, "get " + strings.Fields(w)[1]}}, or, "native", lpb, false, 8, budget, "histories-checked"))
+			}
+		}
 		// L5: loader-backed Get mixed with writes
 		jobs = append(jobs, concJob("L5:Get‖Set‖Get", CacheCfg{}, nil, [][]string{{"load 1 val"}, {"set 1"}, {"get 1"}}, or, "native", pb, false, 16, budget, "histories-checked"))
 		jobs = append(jobs, concJob("L5:Get‖Invalidate", CacheCfg{}, []string{"set 1"}, [][]string{{"load 1 val", "get 1"}, {"inv 1", "get 1"}}, or, "native", pb, false, 16, budget, "histories-checked"))
